@@ -72,7 +72,8 @@ class RandQ:
                 self.ntag += 1; tn = f"t{self.ntag}"; p["tags"].append({"name": tn})
                 self.pending.append([tn, pty, path, [False]])
             props.append(p)
-        self.tags += self.pending; self.pending = []
+            # a tag is usable by the filters of later properties of the same vertex as well
+            self.tags += self.pending; self.pending = []
         edges = []
         if depth < 3:
             enames = list(sc.edges(ty).keys())
